@@ -431,3 +431,202 @@ def is_ancestor_or_self(anc, nd):
             return True
         x = x.get_parent()
     return False
+
+
+# ------------------------------------------------------------------ sweep family: C04/C07/C08
+def leaves_by_layer(part):
+    """reachable leaves grouped by their own depth, in node_list order within a depth"""
+    reach = {id(n) for n in reachable(part.get_root())}
+    out = {}
+    for layer in part.get_node_list():
+        for n in layer:
+            if id(n) in reach and n.get_children() is None:
+                out.setdefault(n.get_depth(), []).append(n)
+    return out
+
+
+def sweep_hooks(name):
+    """Monitors for SOO / DOO / StoSOO from the published pseudo-code."""
+    S = {}
+
+    def params(ctx):
+        return ctx["meta"]["params"]
+
+    def after_init(ctx):
+        S["ledger"] = {}
+        S["rounds"] = 0
+        S["in_pull"] = False
+        S["exp"] = []
+
+    def sto_b(ctx, nd):
+        a = ctx["algo"]
+        rs = S["ledger"].get(nd._vid, [])
+        if not rs:
+            return math.inf
+        return math.fsum(rs) / len(rs) + math.sqrt(math.log(a.n * a.k / a.delta) / (2 * len(rs)))
+
+    def doo_delta(ctx, part, h):
+        p = params(ctx)
+        if "delta_c" in p:
+            return p["delta_c"] * p["delta_g"] ** h
+        best = -math.inf
+        for n in reachable(part.get_root()):
+            if n.get_depth() == h:
+                lo, hi = n.get_domain()[0]
+                c = (lo + hi) / 2
+                best = max(best, (lo - c) ** 2, (hi - c) ** 2)
+        return best
+
+    def pre_expand(ctx, part, parent, newlayer):
+        case, a = ctx["case"], ctx.get("algo")
+        if a is None:
+            return
+        t = S["rounds"]
+        led = S["ledger"]
+        if parent.get_children() is not None:
+            case.fail("C08", "expanded-internal-cell", f"({parent.get_depth()},{parent.get_index()}) already has children", step=t, algo=name); return
+        lv = leaves_by_layer(part)
+        h = parent.get_depth()
+        k = getattr(a, "k", 1)
+        need = k if name == "StoSOO" else 1
+        if len(led.get(parent._vid, [])) < need:
+            case.fail("C08", "expanded-unevaluated-leaf", f"leaf ({h},{parent.get_index()}) expanded after {len(led.get(parent._vid, []))} evaluations (needs {need})", step=t, algo=name)
+        # no unevaluated leaf may precede it in the sweep
+        if name in ("SOO", "DOO"):
+            maxd = max(lv) if name == "DOO" else h
+            for d in sorted(lv):
+                if d > maxd:
+                    break
+                for n in lv[d]:
+                    if d == h and n is parent and name == "SOO":
+                        break
+                    if not led.get(n._vid):
+                        case.fail("C08", "unevaluated-leaf-precedes-expansion", f"leaf ({d},{n.get_index()}) is unevaluated when ({h},{parent.get_index()}) is expanded", step=t, algo=name)
+                        break
+        # best of its depth / of all leaves
+        if name == "SOO":
+            rew = lambda n: led[n._vid][0] if led.get(n._vid) else -math.inf
+            best = max(rew(n) for n in lv.get(h, [parent]))
+            if rew(parent) != best:
+                case.fail("C08", "not-best-of-depth", f"expanded reward {rew(parent)!r}, best leaf of depth {h} has {best!r}", step=t, algo=name)
+            for (ph, pv) in S["exp"]:
+                if ph < h and not any(eh >= h for eh, _ in S["exp"][S["exp"].index((ph, pv)) + 1:]) and pv > rew(parent):
+                    pass
+            # monotone within a sweep: expansions of the current sweep = suffix with increasing depth
+            cur = []
+            for (eh, ev) in S["exp"]:
+                if cur and eh <= cur[-1][0]:
+                    cur = []
+                cur.append((eh, ev))
+            if cur and cur[-1][0] < h and any(ev > rew(parent) for _eh, ev in cur):
+                case.fail("C08", "sweep-not-monotone", f"expanded reward {rew(parent)!r} at depth {h} below a shallower expansion of the same sweep", step=t, algo=name)
+            S["exp"].append((h, rew(parent)))
+        elif name == "StoSOO":
+            bp = sto_b(ctx, parent)
+            best = max(sto_b(ctx, n) for n in lv.get(h, [parent]))
+            if not rel_close(bp, best):
+                case.fail("C08", "not-best-of-depth", f"expanded b={bp!r}, best leaf of depth {h} has b={best!r}", step=t, algo=name)
+            if any(ev > bp and not rel_close(ev, bp) for _eh, ev in S["exp"]):
+                case.fail("C08", "sweep-not-monotone", f"expanded b={bp!r} below a shallower expansion of the same sweep", step=t, algo=name)
+            S["exp"].append((h, bp))
+        else:  # DOO
+            def bval(n):
+                return led[n._vid][0] + doo_delta(ctx, part, n.get_depth()) if led.get(n._vid) else -math.inf
+            allv = [n for d in lv for n in lv[d]]
+            best = max(bval(n) for n in allv)
+            if not rel_close(bval(parent), best):
+                case.fail("C08", "not-best-leaf", f"expanded reward+delta={bval(parent)!r}, best over all leaves {best!r}", step=t, algo=name)
+            S["exp"].append((h, bval(parent)))
+            if len(S["exp"]) > 1:
+                case.fail("C08", "multiple-expansions", "more than one expansion in one pull", step=t, algo=name)
+
+    def before_pull(ctx, t):
+        S["exp"] = []
+
+    def after_pull(ctx, t, pt):
+        case, part, a = ctx["case"], ctx["part"], ctx["algo"]
+        nd = node_of_point_m(part, pt)
+        S["pulled"] = nd
+        if nd is None:
+            case.fail("C08", "point-not-a-representative", "returned point is not the c_point of any cell", step=t, algo=name); return
+        led = S["ledger"]
+        hmax = getattr(a, "h_max", None)
+        if nd.get_children() is not None:
+            case.fail("C08", "handed-out-internal-cell", f"({nd.get_depth()},{nd.get_index()}) is not a leaf", step=t, algo=name)
+        if name in ("SOO", "StoSOO") and nd.get_depth() > hmax:
+            case.fail("C08", "beyond-depth-cap", f"evaluated depth {nd.get_depth()} > cap {hmax}", step=t, algo=name)
+        lv = leaves_by_layer(part)
+        if name in ("SOO", "DOO"):
+            if led.get(nd._vid):
+                case.fail("C08", "evaluated-twice", f"({nd.get_depth()},{nd.get_index()}) handed out again", step=t, algo=name)
+            first = None
+            for d in sorted(lv):
+                for n in lv[d]:
+                    if not led.get(n._vid):
+                        first = n; break
+                if first is not None:
+                    break
+            if first is not nd:
+                case.fail("C08", "not-first-unevaluated", f"handed out ({nd.get_depth()},{nd.get_index()}) but the first unevaluated leaf top-down is "
+                          f"({first.get_depth()},{first.get_index()})" if first is not None else "no unevaluated leaf", step=t, algo=name)
+        else:
+            k = a.k
+            if len(led.get(nd._vid, [])) >= k:
+                case.fail("C08", "evaluated-more-than-k", f"cell already has {len(led.get(nd._vid, []))} evaluations, k={k}", step=t, algo=name)
+            bp = sto_b(ctx, nd)
+            best = max(sto_b(ctx, n) for n in lv.get(nd.get_depth(), [nd]))
+            if not rel_close(bp, best):
+                case.fail("C08", "handed-out-not-max-b", f"b={bp!r} but depth best is {best!r}", step=t, algo=name)
+
+    def after_recv(ctx, t, pt, r):
+        case, part, a = ctx["case"], ctx["part"], ctx["algo"]
+        nd = S.get("pulled")
+        if nd is None:
+            return
+        S["ledger"].setdefault(nd._vid, []).append(r)
+        S["rounds"] += 1
+        led = S["ledger"]
+        total = 0
+        for x in reachable(part.get_root()):
+            exp = led.get(x._vid, [])
+            total += len(exp)
+            if name in ("SOO", "DOO"):
+                if exp and (x.reward != exp[-1] or not x.visited):
+                    case.fail("C04", "reward", f"cell ({x.get_depth()},{x.get_index()}) stores {x.reward!r}, history credits {exp}", step=t, algo=name); break
+                if not exp and x.visited and x is not nd:
+                    case.fail("C04", "visited-without-reward", f"cell ({x.get_depth()},{x.get_index()}) marked evaluated without a reward", step=t, algo=name); break
+            else:
+                if list(x.rewards) != exp or x.visited_times != len(exp):
+                    case.fail("C04", "reward-list", f"cell ({x.get_depth()},{x.get_index()}) holds {len(x.rewards)} rewards/count {x.visited_times}, history credits {len(exp)}", step=t, algo=name); break
+                if exp and not rel_close(float(x.mean_reward), math.fsum(exp) / len(exp)):
+                    case.fail("C04", "mean", f"stored mean {x.mean_reward!r}", step=t, algo=name); break
+        if total != S["rounds"]:
+            case.fail("C04", "count-sum", f"evidence in the reachable tree sums to {total} after {S['rounds']} rounds", step=t, algo=name)
+
+    def at_end(ctx):
+        case, part, a = ctx["case"], ctx["part"], ctx["algo"]
+        q = ctx.get("last")
+        if q is None:
+            return
+        nd = node_of_point_m(part, q)
+        led = S["ledger"]
+        if nd is None:
+            case.fail("C07", "recommendation-not-a-representative", f"{q!r}", step="end", algo=name); return
+        if name in ("SOO", "DOO"):
+            if not led.get(nd._vid):
+                case.fail("C07", "recommended-unevaluated-cell", f"cell ({nd.get_depth()},{nd.get_index()}) was never evaluated (its stored reward is {nd.reward!r})", step="end", algo=name, rmode=ctx["meta"]["rmode"])
+                return
+            best = max(v[0] for v in led.values())
+            if led[nd._vid][0] != best:
+                case.fail("C07", "recommendation-not-best", f"recommended reward {led[nd._vid][0]!r}, best evaluated {best!r}", step="end", algo=name)
+        else:
+            deepest = max(n.get_depth() for n in reachable(part.get_root()))
+            if nd.get_depth() != deepest:
+                case.fail("C07", "recommendation-not-deepest", f"depth {nd.get_depth()} != {deepest}", step="end", algo=name); return
+            mean = lambda n: (math.fsum(led[n._vid]) / len(led[n._vid])) if led.get(n._vid) else 0.0
+            best = max(mean(n) for n in reachable(part.get_root()) if n.get_depth() == deepest)
+            if not rel_close(mean(nd), best):
+                case.fail("C07", "recommendation-not-best", f"mean {mean(nd)!r} vs best {best!r}", step="end", algo=name)
+
+    return {"after_init": after_init, "before_pull": before_pull, "pre_expand": pre_expand, "after_pull": after_pull,
+            "after_recv": after_recv, "at_end": at_end}
